@@ -95,6 +95,8 @@ func TestScenarios(t *testing.T) {
 	}
 	defer out.Close()
 	tw := &traceWriter{f: out, w: bufio.NewWriterSize(out, 1<<20)}
+	// warm up the process-wide resolver state outside any bubble (its semaphore channel must not belong to one)
+	net.LookupIP("warmup.invalid")
 	sc := bufio.NewScanner(in)
 	sc.Buffer(make([]byte, 1<<20), 1<<26)
 	n := 0
